@@ -13,3 +13,5 @@ sed -i '0,/^name = "twofloat"/s//name = "twofloat-nostd"/' work/twofloat_nostd/C
 mkdir -p work/twofloat_hooked
 rsync -a --delete --exclude target --exclude .git --exclude Cargo.lock "$REPO"/ work/twofloat_hooked/
 sed -i '0,/^name = "twofloat"/s//name = "twofloat-hooked"/' work/twofloat_hooked/Cargo.toml
+# the numeric literals of the crate's own source, as a dictionary of operand high words (see harvest_literals.py)
+python3 "$(dirname "$0")/harvest_literals.py" work/twofloat_nostd work/literals.txt > /dev/null 2>&1 || : > work/literals.txt
